@@ -104,8 +104,11 @@ Definition m2apply (b b' : base) (m0 : mst2) (te : Z * ev) : mst2 :=
            claiming instance; C03 bounds how long such a claim may last) *)
         let k := ic_key (cfg_of b i) in
         let m1 := match aget (q_vac m1) k with Some _ => if io_flag (inst_of b i) then m1 <| q_vac ::= fun a => aset a k t |> else m1 | None => m1 end in
-        (* validation calls in progress in this goroutine demoted the instance *)
-        m2upd m1 i (fun x => x <| n_vals ::= fun a => match aget a gid with Some (tk, wl, sg, _, cb) => aset a gid (tk, wl, sg, true, cb) | None => a end |>)
+        (* validation calls in progress in this goroutine demoted the instance - when there was a claim to drop: a store of
+           false over false (another path ended the term at this very instant and owes the callback) demotes nobody *)
+        if io_flag (inst_of b i) then
+          m2upd m1 i (fun x => x <| n_vals ::= fun a => match aget a gid with Some (tk, wl, sg, _, cb) => aset a gid (tk, wl, sg, true, cb) | None => a end |>)
+        else m1
   | EDemote i gid =>
       m2upd m i (fun x => x <| n_demotes ::= Z.succ |>
                             <| n_vals ::= fun a => match aget a gid with Some (tk, wl, sg, d, _) => aset a gid (tk, wl, sg, d, true) | None => a end |>)
